@@ -452,6 +452,47 @@ func c10Run(run *ev.Run) {
 			run.Cap(fmt.Sprintf("handler level %s: stopped at depth %d", spec.Store, st.DepthDone))
 		}
 	}
+	// as assembled at start-up: two Redis-backed filters on ONE server and database whose URIs are spelled differently
+	// (with and without the database suffix) and whose time-outs differ, in both configuration orders - each filter's
+	// sessions carry that filter's limits (the TTL Redis holds for the key)
+	for _, swap := range []bool{false, true} {
+		lax := world.FilterSpec{Name: "lax", Realm: "idp-a.test", ClientID: "client-a", Secret: "sa", CookiePrefix: "pa", Redis: "r1"}
+		strict := world.FilterSpec{Name: "strict", Realm: "idp-b.test", ClientID: "client-b", Secret: "sb", CookiePrefix: "pb", Redis: "r1/0", Abs: 60, Idle: 30}
+		fs := []world.FilterSpec{lax, strict}
+		if swap {
+			fs = []world.FilterSpec{strict, lax}
+		}
+		sw, err := world.NewSWorld(fs, nil)
+		if err != nil {
+			run.HarnessError("C10 start-up pair: " + err.Error())
+			break
+		}
+		for _, f := range fs {
+			sid, _, err := sw.Login(f)
+			if err != nil {
+				run.HarnessError("C10 start-up pair login: " + err.Error())
+				break
+			}
+			mr := sw.Redis["r1"]
+			ttl := mr.DB(0).TTL(world.RedisKeyFor(mr, 0, sid))
+			want := time.Duration(0)
+			if f.Idle > 0 {
+				want = time.Duration(f.Idle) * time.Second
+			}
+			diff := ttl - want
+			if diff < 0 {
+				diff = -diff
+			}
+			total.Transitions++
+			run.Class(fmt.Sprintf("startup-pair|first=%s|filter=%s|ttl=%v", fs[0].Name, f.Name, ttl > 0))
+			if diff > 3*time.Second {
+				run.Violation(fmt.Sprintf("C10 session-carries-another-filters-limits filter=%s store=redis same-server-and-db", f.Name),
+					fmt.Sprintf("configuration order %s,%s: the session of filter %s (absolute %d s, idle %d s) has TTL %v in Redis, expected %v", fs[0].Name, fs[1].Name, f.Name, f.Abs, f.Idle, ttl, want),
+					map[string]any{"level": "server-pair", "filters": fs})
+			}
+		}
+		sw.Close()
+	}
 	run.States, run.Transitions, run.Traces, run.Evals = total.States, total.Transitions, total.Histories, total.Transitions
 	run.Extra["depth"] = depth
 	c10RealTime(run)
